@@ -73,6 +73,7 @@ inductive IOp (κ χ : Type)
   | write (chunk : χ)    -- `write` / `lol_html_rewriter_write`
   | end_                 -- `end` / `lol_html_rewriter_end`
   | free                 -- drop / `lol_html_rewriter_free`
+  deriving DecidableEq, Repr
 
 /-- The sequential semantics of the library, as a parameter. `step` is one call on one instance slot
     (`none` = no such instance / freed); it reads the caller's view `g` of the global items and yields the new
@@ -95,6 +96,7 @@ inductive Op (κ χ : Type)
   | migrate (i : Nat) (to : Tid)     -- `Send`: instance `i` is moved to thread `to`
   | takeLastError                    -- `lol_html_take_last_error`
   | parseSelector (s : Bytes)
+  deriving DecidableEq, Repr
 
 /-- One step of a schedule. `adv` = what this call, or anything else in the process, does to the mutable
     global items before the next call. -/
@@ -107,6 +109,7 @@ structure Event (S : Sys) where
 inductive TObs (ω : Type)
   | taken (m : Option ErrMsg)
   | parsed (o : ω)
+  deriving DecidableEq, Repr
 
 structure World (S : Sys) where
   shared : Nat → S.V                 -- process-wide copy of every item
